@@ -106,6 +106,8 @@ class IntervalInterp:
             v = self.ev(s.value, env)
             for t in s.targets:
                 self.bind(t, v, env)
+            if len(s.targets) == 1 and isinstance(s.targets[0], ast.Name) and _is_mask_expr(s.value):
+                env["$mask:" + s.targets[0].id] = s.value          # m = (x < a) | (x > b): read again where m.any() is tested
             if isinstance(s.value, ast.JoinedStr) and len(s.targets) == 1 and isinstance(s.targets[0], ast.Name):
                 env["$str:" + s.targets[0].id] = self._fstring(s.value, env, None)   # a command built first and sent later
         elif isinstance(s, ast.AugAssign):
@@ -119,8 +121,13 @@ class IntervalInterp:
             self.block(s.body if self._none_test(s.test, env) else s.orelse, env)
         elif isinstance(s, ast.If):
             e1, e2 = dict(env), dict(env)
-            self.refine(s.test, e1, True)
-            self.refine(s.test, e2, False)
+            u1 = self.refine(s.test, e1, True)
+            u2 = self.refine(s.test, e2, False)
+            if not (u1 and u2):
+                # a guard on values that this analysis cannot read: what it protects is not decidable here (neither "clamped" nor
+                # "unclamped" may be claimed), so the quantities it mentions are marked as such in both branches
+                for e_ in (e1, e2):
+                    self._mark_unread(s.test, e_)
             self.ev(s.test, env)
             self.block(s.body, e1)
             self.block(s.orelse, e2)
@@ -237,7 +244,31 @@ class IntervalInterp:
                 v = self.ev(a, env)
                 self.bind(t, self.element(v), env)
             return
-        self.bind(target, self.element(it), env)
+        if isinstance(iter_node, ast.Call) and _callname(iter_node) == "range" and isinstance(target, ast.Name) and 1 <= len(iter_node.args) <= 3 and not iter_node.keywords:
+            # for d in range(a, N, step): a <= d < N  (positive step); the fact  N - d >= 1  is kept for the expression `N - d`
+            ra = [self.ev(a, env) for a in iter_node.args]
+            lo = ra[0].lo if len(ra) >= 2 else 0
+            stop = ra[1] if len(ra) >= 2 else ra[0]
+            stop_node = iter_node.args[1] if len(ra) >= 2 else iter_node.args[0]
+            step_ok = len(ra) < 3 or ra[2].lo >= 1
+            if step_ok:
+                self.bind(target, AV(lo, stop.hi - 1, "scalar"), env)
+                env["$expr:" + ast.unparse(ast.BinOp(left=_load(stop_node), op=ast.Sub(), right=ast.Name(id=target.id, ctx=ast.Load())))] = AV(1, INF if math.isinf(stop.hi) else stop.hi - lo, "scalar")
+                return
+        if it.items is not None and isinstance(target, (ast.Tuple, ast.List)) and it.items and all(x.items is not None and len(x.items) == len(target.elts) for x in it.items):
+            # a literal list of tuples
+            for k_, t in enumerate(target.elts):
+                h = it.items[0].items[k_]
+                for x in it.items[1:]:
+                    h = hull(h, x.items[k_])
+                self.bind(t, h, env)
+            return
+        el = self.element(it)
+        if it.note == "rows" and it.items is not None and isinstance(target, (ast.Tuple, ast.List)) and len(it.items) == len(target.elts):
+            for t, x in zip(target.elts, it.items):         # a comprehension whose element is a tuple: every row has this layout
+                self.bind(t, x, env)
+            return
+        self.bind(target, el, env)
 
     def element(self, v: AV):
         if v.kind in ("array", "list"):
@@ -246,49 +277,113 @@ class IntervalInterp:
 
     # ------------------------------------------------------------------ refinement
     def refine(self, test, env, pol):
+        """narrow `env` under the assumption that `test` is `pol`; returns False when the test compares VALUES in a way this
+        analysis does not read (the caller then marks the values involved as not decidable instead of leaving them wide)"""
         test = self._desugar_test(test)
         if isinstance(test, ast.UnaryOp) and isinstance(test.op, ast.Not):
             return self.refine(test.operand, env, not pol)
         if isinstance(test, ast.BoolOp):
+            oks = []
             if (isinstance(test.op, ast.Or) and not pol) or (isinstance(test.op, ast.And) and pol):
                 for v in test.values:
-                    self.refine(v, env, pol)
-            return
-        # (x < a).any()  being False  => all x >= a
-        if isinstance(test, ast.Call) and isinstance(test.func, ast.Attribute) and test.func.attr == "any" and not test.args:
+                    oks.append(self.refine(v, env, pol))
+                return all(oks)
+            # a disjunction that holds / a conjunction that fails says nothing element-wise: understood iff every part is readable
+            return all(self.refine(v, dict(env), pol) for v in test.values)
+        # (x < a).any() being False => all x >= a ;  mask.any() / mask.all() with a mask built earlier (m = (x < a) | (x > b))
+        if isinstance(test, ast.Call) and isinstance(test.func, ast.Attribute) and test.func.attr in ("any", "all") and not test.args:
             inner = test.func.value
-            if isinstance(inner, ast.Compare) and not pol:
-                self._refine_cmp(inner, env, False)
-            return
-        if isinstance(test, ast.Call) and isinstance(test.func, ast.Attribute) and test.func.attr == "all" and not test.args:
-            inner = test.func.value
-            if isinstance(inner, ast.Compare) and pol:
-                self._refine_cmp(inner, env, True)
-            return
+            if test.func.attr == "any":
+                return self._refine_mask(inner, env, False) if not pol else self._mask_readable(inner, env)
+            return self._refine_mask(inner, env, True) if pol else self._mask_readable(inner, env)
+        if isinstance(test, ast.Call) and _callname(test).split(".")[-1] in ("any", "all") and len(test.args) == 1 and not test.keywords \
+                and not isinstance(test.args[0], (ast.GeneratorExp, ast.ListComp)):
+            inner = test.args[0]                       # np.any(mask) / np.all(mask)
+            if _callname(test).split(".")[-1] == "any":
+                return self._refine_mask(inner, env, False) if not pol else self._mask_readable(inner, env)
+            return self._refine_mask(inner, env, True) if pol else self._mask_readable(inner, env)
         if isinstance(test, ast.Name) and isinstance(env.get(test.id), AV) and env[test.id].note == "int-remainder" and env[test.id].lo >= 0:
             # `r = a % k` (or divmod) ... `if r:` - same as testing the remainder expression directly
             cur = env[test.id]
             env[test.id] = cur.copy(lo=max(cur.lo, 1)) if pol else cur.copy(lo=0, hi=0)
-            return
+            return True
         if isinstance(test, ast.BinOp) and isinstance(test.op, ast.Mod):
             # `if a % k:` - a non-negative integer remainder that is truthy is >= 1, falsy is 0
             cur = self.ev(test, env)
             if cur.lo >= 0:
                 env["$expr:" + ast.unparse(test)] = cur.copy(lo=max(cur.lo, 1)) if pol else cur.copy(lo=0, hi=0)
-            return
+            return True
         if isinstance(test, ast.Compare):
             if len(test.ops) == 1 and isinstance(test.ops[0], (ast.In, ast.NotIn)) and isinstance(test.left, ast.Name):
                 isin = pol if isinstance(test.ops[0], ast.In) else not pol
                 tbl = self.ev(test.comparators[0], env)
                 if isin and tbl.member is not None and test.left.id in env:
                     env[test.left.id] = AV(min(tbl.member), max(tbl.member), env[test.left.id].kind, frozenset(tbl.member))
-                return
+                return True
+            if len(test.ops) == 1 and isinstance(test.ops[0], (ast.Is, ast.IsNot)):
+                return True
+            if len(test.ops) == 2 and all(isinstance(o, (ast.Lt, ast.LtE)) for o in test.ops) and pol:
+                # lo <= x <= hi (holding): both halves
+                a = ast.Compare(left=test.left, ops=[test.ops[0]], comparators=[test.comparators[0]])
+                b = ast.Compare(left=test.comparators[0], ops=[test.ops[1]], comparators=[test.comparators[1]])
+                ra, rb = self._refine_cmp(a, env, True, scalar_only=True), self._refine_cmp(b, env, True, scalar_only=True)
+                return ra and rb
             # scalar comparison: only meaningful for scalars (for arrays `if x < a` is an error / ambiguous)
-            self._refine_cmp(test, env, pol, scalar_only=True)
+            return self._refine_cmp(test, env, pol, scalar_only=True)
+        # tests that do not compare values (type tests, flags, None tests, sizes): nothing to read, nothing missed
+        return not _compares_values(test)
+
+    def _mark_unread(self, test, env, depth=0):
+        for n in ast.walk(test):
+            if isinstance(n, ast.Name) and isinstance(n.ctx, ast.Load):
+                if ("$mask:" + n.id) in env and depth < 3:
+                    self._mark_unread(env["$mask:" + n.id], env, depth + 1)
+                v = env.get(n.id)
+                if isinstance(v, AV) and (math.isinf(v.lo) or math.isinf(v.hi)) and v.kind in ("scalar", "array", "unknown", "list"):
+                    env[n.id] = v.copy(opaque=True)
+
+    def _mask_ast(self, m, env):
+        if isinstance(m, ast.Name) and ("$mask:" + m.id) in env:
+            return env["$mask:" + m.id]
+        return m
+
+    def _mask_readable(self, m, env):
+        m = self._desugar_test(self._mask_ast(m, env))
+        if isinstance(m, ast.Call) and _callname(m).split(".")[-1] in ("isnan", "isinf", "isfinite", "isneginf", "isposinf", "iscomplex", "isreal"):
+            return True        # a test for NaN / infinity: read, nothing to narrow (intervals speak about the finite values)
+        if isinstance(m, ast.Compare):
+            return self._refine_cmp(m, dict(env), True)
+        if isinstance(m, ast.BinOp) and isinstance(m.op, (ast.BitOr, ast.BitAnd)):
+            return self._mask_readable(m.left, env) and self._mask_readable(m.right, env)
+        if isinstance(m, ast.UnaryOp) and isinstance(m.op, ast.Invert):
+            return self._mask_readable(m.operand, env)
+        return False
+
+    def _refine_mask(self, m, env, pol):
+        """pol True: every element satisfies the mask; pol False: no element does"""
+        m = self._desugar_test(self._mask_ast(m, env))
+        if isinstance(m, ast.Call) and _callname(m).split(".")[-1] in ("isnan", "isinf", "isfinite", "isneginf", "isposinf", "iscomplex", "isreal"):
+            return True
+        if isinstance(m, ast.Compare):
+            return self._refine_cmp(m, env, pol)
+        if isinstance(m, ast.UnaryOp) and isinstance(m.op, ast.Invert):
+            return self._refine_mask(m.operand, env, not pol)
+        if isinstance(m, ast.BinOp) and isinstance(m.op, ast.BitOr):
+            if not pol:
+                ra, rb = self._refine_mask(m.left, env, False), self._refine_mask(m.right, env, False)
+                return ra and rb
+            return self._mask_readable(m, env)
+        if isinstance(m, ast.BinOp) and isinstance(m.op, ast.BitAnd):
+            if pol:
+                ra, rb = self._refine_mask(m.left, env, True), self._refine_mask(m.right, env, True)
+                return ra and rb
+            return self._mask_readable(m, env)
+        return False
 
     def _refine_cmp(self, cmp, env, pol, scalar_only=False):
+        """-> True when the comparison was read (a name or its size against a constant bound, |x| against a bound)"""
         if len(cmp.ops) != 1:
-            return
+            return False
         op = cmp.ops[0]
         l, r = cmp.left, cmp.comparators[0]
         name, bound, flipped = None, None, False
@@ -300,7 +395,7 @@ class IntervalInterp:
                 o = {ast.Lt: "<", ast.LtE: "<=", ast.Gt: ">", ast.GtE: ">="}.get(type(op))
                 key = side.args[0].id
                 if b is None or o is None or key not in env or not isinstance(env[key], AV):
-                    return
+                    return False
                 if flip:
                     o = {"<": ">", "<=": ">=", ">": "<", ">=": "<="}[o]
                 if not pol:
@@ -308,7 +403,7 @@ class IntervalInterp:
                 cur = env[key]
                 if o in ("<", "<=") and b >= 0 and not (scalar_only and cur.kind == "array"):
                     env[key] = cur.copy(lo=max(cur.lo, -b), hi=min(cur.hi, b))
-                return
+                return True
         if isinstance(l, ast.Name) or (isinstance(l, ast.Attribute) and l.attr == "size" and isinstance(l.value, ast.Name)):
             b = self.const(r, env)
             if b is not None:
@@ -318,11 +413,11 @@ class IntervalInterp:
             if b is not None:
                 name, bound, flipped = r, b, True
         if name is None:
-            return
+            return not _compares_values(cmp)
         ops = {ast.Lt: "<", ast.LtE: "<=", ast.Gt: ">", ast.GtE: ">="}
         o = ops.get(type(op))
         if o is None:
-            return
+            return isinstance(op, (ast.Eq, ast.NotEq))      # equality with a constant: read, nothing to narrow
         if flipped:
             o = {"<": ">", "<=": ">=", ">": "<", ">=": "<="}[o]
         if not pol:
@@ -330,16 +425,17 @@ class IntervalInterp:
         is_size = isinstance(name, ast.Attribute)
         key = name.value.id if is_size else name.id
         if key not in env or not isinstance(env[key], AV):
-            return
+            return True
         cur = env[key]
         if is_size:
             sz = cur.size or AV(0, INF, "scalar")
             sz = self._apply(sz, o, bound, integer=True)
             env[key] = cur.copy(size=sz)
-            return
+            return True
         if scalar_only and cur.kind == "array":
-            return
+            return True
         env[key] = self._apply(cur, o, bound)
+        return True
 
     def _apply(self, cur, o, bound, integer=False):
         lo, hi = cur.lo, cur.hi
@@ -436,6 +532,8 @@ class IntervalInterp:
                 it = self.ev(g.iter, sub)
                 self.bind_iter(g.target, g.iter, it, sub)
             e = self.ev(n.elt, sub)
+            if isinstance(n.elt, ast.Tuple) and e.items is not None:
+                return AV(e.lo, e.hi, "list", e.member, note="rows", items=e.items)      # a list of (a, b, ...) rows
             return AV(e.lo, e.hi, "list", e.member)
         if isinstance(n, ast.Call):
             return self.call(n, env)
@@ -599,7 +697,7 @@ class IntervalInterp:
             t = self.ev(args[0], env)
             if t.member is not None:
                 return AV(min(t.member), max(t.member), "scalar", frozenset(t.member))
-        if last in ("int", "float", "round"):
+        if last in ("int", "float", "round", "rint", "around", "trunc", "fix"):
             v = self.ev(args[0], env) if args else AV()
             return AV(math.floor(v.lo) if not math.isinf(v.lo) else v.lo, math.ceil(v.hi) if not math.isinf(v.hi) else v.hi, "scalar", v.member)
         if last == "len" and len(args) == 1:
@@ -621,6 +719,9 @@ class IntervalInterp:
             return v.copy(lo=min(tr(v.lo), v.lo), hi=max(tr(v.hi), v.hi)) if not any(k in tname for k in ("int", "bool")) else v.copy(lo=tr(v.lo), hi=tr(v.hi))
         if last in ("copy", "ravel", "flatten"):
             return self.ev(base, env) if base is not None else AV()
+        if last in ("sort", "sorted", "unique", "flip", "squeeze", "atleast_1d") and args and (base is None or name.startswith(("np.", "numpy."))):
+            v = self.ev(args[0], env)                     # same values, another order
+            return AV(v.lo, v.hi, "array" if v.kind in ("list", "array") else v.kind, v.member, v.size)
         if last in ("str2array",):
             return AV(0, 1, "array")
         if last in ("min", "max") and len(args) >= 2 and base is None:
@@ -652,6 +753,12 @@ class IntervalInterp:
                 parts.append(("text", str(v.value)))
             elif isinstance(v, ast.FormattedValue):
                 val = self.ev(v.value, env)
+                if val.kind == "str" and val.parts is not None:
+                    # a number rendered first and interpolated as text: f'{x / 1e-12:.1f}e-12' is x rounded on the 0.1e-12 grid
+                    sc = _scaled_number(val.parts)
+                    val = sc if sc is not None else AV(kind="str", opaque=True)
+                elif val.kind == "str" and val.member is None and val.text is None:
+                    val = val.copy(opaque=True)
                 spec = ""
                 if v.format_spec is not None:
                     spec = "".join(str(x.value) for x in v.format_spec.values if isinstance(x, ast.Constant))
@@ -744,6 +851,50 @@ class IntervalInterp:
                 else:
                     merged.append(p)
             self.sites.append(Site(query_node, self.fname, merged, ""))
+
+
+def _scaled_number(parts):
+    """[slot(x, '.kf'), text('e<n>')] -> the interval of x * 10**n (rounding on a grid that contains the limits is ignored)"""
+    import re as _re
+    if len(parts) == 2 and parts[0][0] == "slot" and parts[1][0] == "text":
+        m = _re.fullmatch(r"[eE]([+-]?\d+)", parts[1][1])
+        av = parts[0][2]
+        if m and isinstance(av, AV) and av.kind != "str":
+            k = 10.0 ** int(m.group(1))
+            return AV(av.lo * k, av.hi * k, av.kind if av.kind in ("scalar", "array") else "scalar", None, None, "", None, av.opaque)
+    if len(parts) == 1 and parts[0][0] == "slot" and isinstance(parts[0][2], AV) and parts[0][2].kind != "str":
+        return parts[0][2]
+    return None
+
+
+def _is_mask_expr(n):
+    if isinstance(n, ast.Compare):
+        return any(isinstance(o, (ast.Lt, ast.LtE, ast.Gt, ast.GtE, ast.Eq, ast.NotEq)) for o in n.ops)
+    if isinstance(n, ast.BinOp) and isinstance(n.op, (ast.BitOr, ast.BitAnd)):
+        return _is_mask_expr(n.left) and _is_mask_expr(n.right)
+    if isinstance(n, ast.UnaryOp) and isinstance(n.op, ast.Invert):
+        return _is_mask_expr(n.operand)
+    return False
+
+
+def _compares_values(test):
+    """does the test look at the VALUE of a numeric quantity (orderings, any()/all(), isnan ...) as opposed to its type, presence or size?"""
+    for n in ast.walk(test):
+        if isinstance(n, ast.Compare) and any(isinstance(o, (ast.Lt, ast.LtE, ast.Gt, ast.GtE)) for o in n.ops):
+            sides = [n.left] + list(n.comparators)
+            if not all(_is_size_like(x) or isinstance(x, ast.Constant) for x in sides):
+                return True
+        if isinstance(n, ast.Call) and isinstance(n.func, ast.Attribute) and n.func.attr in ("any", "all") and not n.args:
+            return True
+    return False
+
+
+def _is_size_like(x):
+    if isinstance(x, ast.Call) and isinstance(x.func, ast.Name) and x.func.id == "len":
+        return True
+    if isinstance(x, ast.Attribute) and x.attr in ("size", "ndim", "shape"):
+        return True
+    return False
 
 
 def _subst_names(node, sub):
